@@ -37,7 +37,10 @@ def stream_score(chk, i, rng):
     if s != s2 and not close(s, s2, s):
         chk.fail("score:depends-on-return_grad", f"{label}: score differs with return_grad ({s} vs {s2})", replay, layer="L3")
     ms, _ = gemlib.run_model(chk, obj, ovo, g.epsilon, P, A, calls2)
-    if not close(s, ms, s):
+    extra, ill = gemlib.widen(obj, ovo, P, A, g.epsilon)
+    if ill:
+        chk.dist["ill-conditioned (values not compared)"] += 1
+    elif not close(s, ms, s, tol=1e-9 + extra):
         chk.fail(f"score:model-mismatch:{obj}:{'ovo' if ovo else 'ova'}", f"{label}: implementation score {s!r} != model score {ms!r}", replay)
     if obj == "ws":
         # the weights handed to the solver are the model's conditionals, the second marginal uniform / the other conditional
@@ -61,9 +64,17 @@ def stream_score(chk, i, rng):
         Pc = np.clip(P, g.epsilon, 1 - g.epsilon)
         interior = bool(np.all((P > g.epsilon) & (P < 1 - g.epsilon)))
         # kernels that are not PSD can give a negative squared MMD: the code clamps it to 0 and so does the reference
-        r = gemlib.ref_score(obj, ovo, Pc, A)
+        try:
+            r = gemlib.ref_score(obj, ovo, Pc, A)
+        except gemlib.OracleUnavailable:
+            chk.dist["oracle:independent-LP-unavailable"] += 1
+            chk.count(None)
+            return
         scale = max(abs(r), abs(s), 1.0)
         tol = 1e-7 if obj == "ws" else 1e-9
+        if obj == "mmd":
+            # sqrt of a difference of nearly equal quadratic forms: absolute error ~ sqrt(u * magnitude)
+            tol = 1e-9 + 2e-7 * np.sqrt(max(1.0, float(np.abs(A).max()))) / scale
         if obj in ("he", "chi", "kl") and not interior:
             tol = 1e-6          # rows of the clipped matrix no longer sum to one: the identity holds up to O(K eps)
         if abs(r - s) > tol * scale * (1e3 if (obj == "chi" and mode == "saturated") else 1.0):
@@ -146,7 +157,7 @@ STREAMS = {"score": (stream_score, 420, 6000), "registry": (stream_registry, 13,
 
 
 def main(pid="C01", streams=STREAMS, rule=None):
-    chk = Check(pid)
+    chk = Check(pid, props_files=[f"Props/{pid}.v"] + ([f"Props/{pid}gen.v"] if pid in ("C01", "C02") else []))
     chk.build()
     chk.proofs()
     if chk.replay_path:
